@@ -8,6 +8,7 @@
 //          "auxpre":[[..]..],"auxpost":[[..]..],"ret":n}
 #define VERIF_ELEM long
 #include "viewprog.hpp"
+#include <functional>
 
 #include <algorithm>
 #include <numeric>
@@ -55,6 +56,8 @@ long run_alg(std::string const& alg, long arg, It first, It last, AIt afirst, AI
 	if(alg == "find") { Val p = pivot_of(arg); return pos(std::find(first, last, p)); }
 	if(alg == "equal") { return std::equal(first, last, afirst) ? 1 : 0; }
 	if(alg == "is_sorted") { return std::is_sorted(first, last) ? 1 : 0; }
+	if(alg == "is_sorted_greater") { return std::is_sorted(first, last, std::greater<>{}) ? 1 : 0; }
+	if(alg == "sort_greater") { std::sort(first, last, std::greater<>{}); return -1; }
 	if(alg == "lexicographical_compare") { return std::lexicographical_compare(first, last, afirst, alast) ? 1 : 0; }
 	if constexpr(std::is_arithmetic_v<Val>) {
 		if(alg == "accumulate") { return std::accumulate(first, last, 0L); }
@@ -67,7 +70,7 @@ long run_alg(std::string const& alg, long arg, It first, It last, AIt afirst, AI
 template<int D, int RD> void do_case(multi::array<T, RD>& root, view_t<D>& v, std::string const& kind, std::string const& alg, long arg, lcg& rng, std::ostream& os) {
 	std::vector<long> sh;
 	szv<D>(v.sizes(), sh, std::make_index_sequence<D>{});
-	multi::array<T, D> aux(zext<D>(sh), 0L);
+	multi::array<T, D> aux(v.extensions(), 0L);   // same index extensions as the view: assigning a row to a row of another index base is outside the library's domain
 	for(auto& e : aux.elements()) { e = rng.next(3); }
 	auto dump_root = [&](std::vector<long>& out) { for(auto const& e : root.elements()) { out.push_back(e); } };
 	auto dump_aux = [&](std::vector<std::vector<long>>& out) {
